@@ -444,6 +444,12 @@ class SpecEval:
         if name == 'typetag':
             ty = resolve_type(w, self.type_from_ast(args[0]), self.pkg)
             return SV(z3.IntVal(w.tag(ty)), 'int')
+        if name == 'toint':
+            v = self.ev(args[0])
+            x = v.t
+            if z3.is_int(x):
+                return SV(x, 'int')
+            return SV(z3.If(x >= 0, z3.ToInt(x), -z3.ToInt(-x)), 'int')     # Go's float -> int conversion truncates toward zero
         if name == 'real':
             v = self.ev(args[0])
             return SV(z3.ToReal(v.t) if z3.is_int(v.t) else v.t, 'float64')
